@@ -105,6 +105,9 @@ type VHist struct {
 	M       *model.World
 	LastAck string // extra data the crash child appends to the acknowledgement line of the last op
 	Ctx0    *Store // a contextual store created when the history began (re-created after a restart)
+	// KeySuffix: appended to every property and predicate name of this history, so that the history's predicates
+	// have never been used in the hub before (abstract names stay the same)
+	KeySuffix string
 }
 
 // storeVia returns the store a transaction goes through.
@@ -141,8 +144,8 @@ func (h *VHist) AbsDs(name string) string {
 
 func (h *VHist) Curie(absID string) string { return h.W.Prefix + ":" + absID + "_" + h.Tag }
 func (h *VHist) URI(absID string) string   { return VNamespace + absID + "_" + h.Tag }
-func (h *VHist) Key(abs string) string     { return h.W.Prefix + ":" + abs }
-func (h *VHist) KeyURI(abs string) string  { return VNamespace + abs }
+func (h *VHist) Key(abs string) string     { return h.W.Prefix + ":" + abs + h.KeySuffix }
+func (h *VHist) KeyURI(abs string) string  { return VNamespace + abs + h.KeySuffix }
 
 func (h *VHist) AbsID(curie string) string {
 	s := strings.TrimPrefix(curie, h.W.Prefix+":")
@@ -152,7 +155,11 @@ func (h *VHist) AbsID(curie string) string {
 
 func (h *VHist) AbsKey(key string) string {
 	s := strings.TrimPrefix(key, h.W.Prefix+":")
-	return strings.TrimPrefix(s, VNamespace)
+	s = strings.TrimPrefix(s, VNamespace)
+	if h.KeySuffix != "" {
+		s = strings.TrimSuffix(s, h.KeySuffix)
+	}
+	return s
 }
 
 // Entity builds a fresh implementation entity from abstract content.
